@@ -73,6 +73,12 @@ func (g G) InScheduler() bool {
 		if strings.HasPrefix(f, "created by go.uber.org/cff/scheduler.") {
 			return true
 		}
+		// goroutines the context package runs for a context that was derived
+		// from a context of foreign implementation and not cancelled yet: the
+		// harness derives no such context, generated code might
+		if strings.HasPrefix(f, "created by context.(*cancelCtx).propagateCancel") {
+			return true
+		}
 	}
 	return false
 }
